@@ -108,6 +108,8 @@ def exhaustive(tier):
 # ------------------------------------------------------------------------------------------
 
 def _check_geom(ctx, n, p32, m, k):
+    if not (0.0 < p32 < 1.0):
+        ctx.fail("C07.bloom_bits", f"n={n}: a request whose 32-bit rate is {p32!r} was accepted (number_bits {m}, number_hashes {k})")
     x = -n * math.log(p32) / LN2SQ
     lo, hi = math.ceil(x * (1 - EPS)), math.ceil(x * (1 + EPS))
     ctx.check("C07.bloom_bits", lo <= m <= hi, lambda: f"n={n} p32={p32!r}: number_bits {m} not in [{lo},{hi}]")
